@@ -38,13 +38,16 @@ def run(ctx):
     mcs = [("MetaJournal_mc.cfg", "name index + groups, one journal"),
            ("MetaJournal_mc_chain.cfg", "source -> compact aggregator -> agent")]
     if th:
-        mcs = [("MetaJournal_mc_big.cfg", "name index + groups + namespace, one journal"),
+        mcs = [("MetaJournal_mc_big.cfg", "name index + groups, one journal, 5 edits"),
+               ("MetaJournal_mc_m3_big.cfg", "three metrics competing for three names"),
                ("MetaJournal_mc_ns_big.cfg", "groups / namespaces renamed, names reused"),
-               ("MetaJournal_mc_chain_big.cfg", "source -> compact aggregator -> two agents"),
+               ("MetaJournal_mc_chain_big.cfg", "source -> compact aggregator -> agent, 4 edits"),
+               ("MetaJournal_mc_chain3_big.cfg", "source -> compact aggregator -> two agents"),
                ("MetaJournal_mc_plain_big.cfg", "source -> plain aggregator -> agent")]
     exports = [("names", "MetaJournal_beh.cfg", None), ("chain", "MetaJournal_beh_chain.cfg", None),
                # histories after which the pinned tree (spec constants OrigNames / OrigSkip) breaks the property
                ("orig-names", "MetaJournal_orig_big.cfg" if th else "MetaJournal_orig.cfg", None),
+               ("orig-rebuild", "MetaJournal_orig_rebuild.cfg", None),
                ("orig-skip", "MetaJournal_stale_big.cfg" if th else "MetaJournal_stale.cfg", None),
                ("sim", "MetaJournal_sim.cfg", (300 if th else 15, 31))]
     w = 4
@@ -59,19 +62,20 @@ def run(ctx):
     for k, r in exp.items():
         ctx.require_model_ok(r, "history export (%s)" % k)
     ctx.ev.set("exhaustive", True)
-    for k in ("orig-names", "orig-skip"):
+    for k in ("orig-names", "orig-rebuild", "orig-skip"):
         if not exp[k].behaviours:
             raise Infra("the transcription of the pinned code (%s) no longer yields counterexamples" % k)
-    directed = pick(ctx, exp["orig-names"], 3000 if th else 100, rnd) + pick(ctx, exp["orig-skip"], 1000 if th else 40, rnd)
-    long_b = pick(ctx, exp["sim"], 2000 if th else 40, rnd)
-    behs = pick(ctx, exp["names"], 4000 if th else 200, rnd) + pick(ctx, exp["chain"], 4000 if th else 150, rnd)
+    directed = (pick(ctx, exp["orig-names"], 3000 if th else 100, rnd) + pick(ctx, exp["orig-skip"], 1000 if th else 40, rnd)
+                + [b for b in exp["orig-rebuild"].behaviours if any(st.get("e", {}).get("t") == "G" for st in b)])
+    long_b = pick(ctx, exp["sim"], 500 if th else 40, rnd)
+    behs = pick(ctx, exp["names"], 2000 if th else 200, rnd) + pick(ctx, exp["chain"], 2000 if th else 150, rnd)
     nexp = len(behs)
     behs += directed + long_b
     ctx.log("histories: %d exported, %d defect-directed, %d simulated" % (nexp, len(directed), len(long_b)))
     # 3. the real code
     nfiles = 8
     res, out, rc = ctx.go_test("internal/metajournal", "TestVerifC20", inp=behs,
-                               env={"VERIF_NRANDOM": 1500 if th else 60, "VERIF_NFILES": nfiles}, timeout=1800)
+                               env={"VERIF_NRANDOM": 600 if th else 60, "VERIF_NFILES": nfiles}, timeout=1800)
     res = ctx.need_result(res, out, rc, "TestVerifC20")
     consts = res.get("consts", {})
     if consts.get("BuiltinGroupIDDefault") != -4:
